@@ -1104,6 +1104,8 @@ class Interp:
         return self.truth(v)
 
     def b_type(self, v):
+        if hasattr(v, "__absint_type__"):
+            return v.__absint_type__
         if isinstance(v, AType):
             return ClassRef("typesystem.py", self.repo.find("typesystem.py", "Type"))
         return TypeSet(pytypes_of(v) - ({"int"} if isinstance(v, bool) else set()))
